@@ -1,6 +1,7 @@
 package main
 
 import (
+	"go/token"
 	"go/types"
 	"strings"
 
@@ -16,13 +17,14 @@ func init() {
 				"(1) constructor failure paths (inotify; thorough: also kqueue's kqueue()+pipe): on every error return, each descriptor acquired before it has either failed itself or is closed on every path to that return, and no goroutine, os.NewFile or channel-bearing object is created before the last failure return; " +
 				"(2) on the first-closer path Close closes the inotify file on every path and it is the only site that closes it (no double close, no leak of the descriptor; closing the inotify instance frees every kernel watch); " +
 				"(3) the reader terminates after Close: every cycle of its outer loop passes the closed test, which exits; a read interrupted by the close (os.ErrClosed) exits; every other way round the loop goes through a send function whose failure exits; the only inner loop is the decode loop, whose offset strictly advances (C01.1); its deferred function - issued at entry - closes both channels and the exit channel Close waits for; " +
-				"(4) exactly one goroutine is started per Watcher. " +
+				"(4) exactly one goroutine is started per Watcher; " +
+				"(5) on the cross-compiled kqueue backend (freebsd/amd64 in quick): Close, although it marks the watcher closed first, still reaches close(2) for every watch descriptor through the internal removal, for every path of the table of all watched paths, wakes the reader, and the reader closes kq and its pipe end (= C17.3). " +
 				"Assumption A1: closing a non-blocking *os.File wakes a blocked Read with os.ErrClosed. Not decided: descriptor and goroutine counts themselves.",
 			Rule:        "one obligation per (error return, earlier acquisition) pair, per closing site, per reader-loop fact, per go statement",
 			Assumptions: []string{"go/types + go/ssa", "A1 (Go runtime poller wakes a blocked Read when the file is closed)", "close(2) of the inotify descriptor releases all its kernel watches"},
 			MinObl:      11,
 		},
-		Configs: tiered(linuxQuick, concat(linuxAll, kqueueQuick, fenQuick, windowsQuick)),
+		Configs: tiered(concat(linuxQuick, []Config{{"freebsd", "amd64"}}), concat(linuxAll, kqueueQuick, fenQuick, windowsQuick)),
 		Run:     runC13,
 	})
 }
@@ -44,6 +46,20 @@ func runC13(p *Program, e *Engine, r *Result, tier string) {
 		return
 	}
 	c13Ctor(a)
+	if strings.Contains(strings.Join(r.Files, " "), "backend_kqueue.go") {
+		// kqueue: Close releases every watch descriptor and both ends of its machinery (shared with C17.3)
+		if kf := kqFind(a); kf != nil {
+			computeRemoval(a, kf)
+			n0 := len(a.R.Obligations)
+			c17Close(a, kf)
+			for i := n0; i < len(a.R.Obligations); i++ {
+				if a.R.Obligations[i].Rule == "C17.3" {
+					a.R.Obligations[i].Rule = "C13.5"
+					a.R.Obligations[i].Key = "C13.5|" + strings.TrimPrefix(a.R.Obligations[i].Key, "C17.3|")
+				}
+			}
+		}
+	}
 	if strings.Contains(strings.Join(r.Files, " "), "backend_inotify.go") {
 		c13Close(a)
 		c13Reader(a)
@@ -116,6 +132,23 @@ func c13Ctor(a *An) {
 		if call, ok := v.Instr.(*ssa.Call); ok {
 			if cal := v.Ctx.calleeOf(&call.Call); cal != nil && fullName(cal) == "golang.org/x/sys/unix.Close" {
 				closes = append(closes, cl{v, stripIDs(v.Ctx.path(call.Call.Args[0]))})
+				// closing every element of a slice (a `fail(err, fds...)` helper) closes what was put into that slice
+				if ld, ok := stripConv(call.Call.Args[0]).(*ssa.UnOp); ok {
+					if ia, ok := ld.X.(*ssa.IndexAddr); ok {
+						if _, isSlice := ia.X.Type().Underlying().(*types.Slice); isSlice {
+							bv, bc := v.Ctx.resolve(ia.X)
+							if ins, complete := sliceInserted(bc, bv); complete {
+								// every element is closed once the loop runs (termination assumed): the iteration test is not a
+								// condition of "this descriptor gets closed"
+								nv := *v
+								nv.Cond = dropLoopLits(v.Cond)
+								for _, in := range ins {
+									closes = append(closes, cl{&nv, stripIDs(in.c.path(in.v))})
+								}
+							}
+						}
+					}
+				}
 			}
 		}
 	}
@@ -132,6 +165,7 @@ func c13Ctor(a *An) {
 		}
 		// returns inside helper functions that only propagate are examined at their own level
 		for _, ac := range acqs {
+			var helperCall *ssa.Call // set when the acquisition happened inside a helper called from the returning function
 			if !inChainOrSame(ac.v.Ctx, v.Ctx) {
 				continue
 			}
@@ -156,9 +190,15 @@ func c13Ctor(a *An) {
 				delegated, _ := v.Cond.everyConj(func(c Conj) bool {
 					return c.has(func(l Lit) bool { return l.A.Kind == AkNil && l.Neg && strings.HasPrefix(l.A.Subj, cp) })
 				})
+				// structurally: the return sits on the non-nil branch of a test of that call's error result (the reaching
+				// condition may have been rewritten through the helper's own return conditions)
+				if !delegated && onErrorBranchOf(call, r) {
+					delegated = true
+				}
 				if delegated {
 					continue
 				}
+				helperCall = call
 			}
 			n++
 			failed, _ := v.Cond.everyConj(func(c Conj) bool { return c.has(ac.fail) })
@@ -169,6 +209,32 @@ func c13Ctor(a *An) {
 			}
 			// every acquired path must be closed before, under a condition implied by the return's
 			var missing []string
+			if helperCall != nil {
+				// the descriptors came back as results of a helper: here they go by other names. Count the closes, before
+				// this return and implied by its condition, of distinct values derived from that call's results against
+				// the descriptors acquired inside the call.
+				cp := stripIDs(v.Ctx.path(helperCall))
+				closed := map[string]bool{}
+				for _, c := range closes {
+					if c.v.Ctx == v.Ctx && c.v.Seq < v.Seq && (strings.HasPrefix(c.path, cp) || fromCallResult(c.v.Instr.(*ssa.Call).Call.Args[0], helperCall)) {
+						if h, _, err := implies(v.Cond, c.v.Cond); err == nil && h {
+							closed[c.path] = true
+						}
+					}
+				}
+				need := 0
+				for _, other := range acqs {
+					for c := other.v.Ctx; c != nil && c.Parent != nil; c = c.Parent {
+						if c.Parent == v.Ctx && c.Site == ssa.Instruction(helperCall) {
+							need += len(other.paths)
+						}
+					}
+				}
+				okh := len(closed) >= need && need > 0
+				a.R.ob("C13.1", key+":released", "every descriptor acquired before a failing step of the constructor is closed on every path to the error return (a failed NewWatcher leaks nothing)",
+					a.P.instrPos(r), okh, sprintf("%d descriptor(s) acquired inside %s; %d distinct result-derived value(s) closed before this return: %s", need, tail(cp, 50), len(closed), fmtList(sortedKeys(closed))))
+				continue
+			}
 			for _, pth := range ac.paths {
 				okc := false
 				for _, c := range closes {
@@ -209,6 +275,92 @@ func c13Ctor(a *An) {
 	if n == 0 {
 		a.R.ob("C13.1", "ctor:error-returns", "the constructor has an error return after its first acquisition (so that failure is reported)", a.P.pos(ro.Ctor.Pos()), false, "no error return found after an acquisition")
 	}
+}
+
+// dropLoopLits removes the literals that only say "the range loop is at some iteration".
+func dropLoopLits(d DNF) DNF {
+	var out DNF
+	for _, c := range d {
+		nc := Conj{}
+		for k, l := range c {
+			if l.A.Kind == AkCmp && strings.Contains(l.A.Subj, "rangeindex") || l.A.Kind == AkOpaque && strings.Contains(l.A.Subj, "next(range(") {
+				continue
+			}
+			nc[k] = l
+		}
+		out = append(out, nc)
+	}
+	return out
+}
+
+// fromCallResult: v is (an element of) a local variable that is assigned a result of call.
+func fromCallResult(v ssa.Value, call *ssa.Call) bool {
+	v = stripConv(v)
+	for i := 0; i < 4; i++ {
+		switch x := v.(type) {
+		case *ssa.UnOp:
+			v = x.X
+		case *ssa.IndexAddr:
+			v = x.X
+		case *ssa.FieldAddr:
+			v = x.X
+		case *ssa.Extract:
+			return x.Tuple == ssa.Value(call)
+		case *ssa.Alloc:
+			for _, st := range cellStores(x) {
+				if ex, ok := stripConv(st.Val).(*ssa.Extract); ok && ex.Tuple == ssa.Value(call) {
+					return true
+				}
+			}
+			return false
+		default:
+			return false
+		}
+	}
+	return false
+}
+
+// onErrorBranchOf: instruction at is dominated by the non-nil successor of a test `err != nil` / `err == nil` where err is
+// a result of call.
+func onErrorBranchOf(call *ssa.Call, at ssa.Instruction) bool {
+	for b := at.Block(); b != nil; b = b.Idom() {
+		p := b.Idom()
+		if p == nil || len(p.Instrs) == 0 {
+			continue
+		}
+		iff, ok := p.Instrs[len(p.Instrs)-1].(*ssa.If)
+		if !ok {
+			continue
+		}
+		bin, ok := iff.Cond.(*ssa.BinOp)
+		if !ok || (bin.Op != token.EQL && bin.Op != token.NEQ) {
+			continue
+		}
+		var subj ssa.Value
+		switch {
+		case isNilConst(bin.Y):
+			subj = bin.X
+		case isNilConst(bin.X):
+			subj = bin.Y
+		default:
+			continue
+		}
+		src := subj
+		if ex, ok := subj.(*ssa.Extract); ok {
+			src = ex.Tuple
+		}
+		if src != ssa.Value(call) || !isErrorType(subj.Type()) {
+			continue
+		}
+		errIdx := 0
+		if bin.Op == token.EQL {
+			errIdx = 1
+		}
+		if s := p.Succs[errIdx]; s == b || s.Dominates(b) {
+			return true
+		}
+	}
+	return false
 }
 
 func inChainOrSame(inner, outer *Ctx) bool {
